@@ -40,7 +40,7 @@ func c12JSON(v zn.V) string {
 		return "null"
 	case *zn.LV:
 		if len(x.Items) == 0 {
-			return "null" // encoding a nil slice; the empty-list form is C19's subject
+			return "[]"
 		}
 		var parts []string
 		for _, it := range x.Items {
